@@ -9,12 +9,13 @@ options / tryCatch / liftRf / liftPy / getNode / modNode.
 -/
 import NrfModel.Net.Api
 import NrfProofs.Hoare
+import NrfProofs.NetExecCore
 
 namespace Nrf.Net
 open Nrf
 
-/-- run a node-layer computation from state `s` -/
-def nexec {α} (m : NetM α) (s : NetState) : Except PyErr α × NetState := (m.run).run s
+-- `nexec`, `NetState.node`, `NetState.setNode`, `NetState.drv`: NrfProofs/NetExecCore.lean (shared with the
+-- closed-system stack, NrfProofs/NetExecJ.lean); the rules of this file that have a namesake there end in `7`
 
 /-- outcome predicate of a pair (result, state) -/
 def Outcome {α σ} (E : PyErr → σ → Prop) (Q : α → σ → Prop) : Except PyErr α × σ → Prop
@@ -96,9 +97,9 @@ theorem dwp_no_iff {α} (m : DrvM α) (Q : α → DrvState → Prop) (s : DrvSta
 
 /-! ### `nexec` rules -/
 
-@[simp] theorem nexec_pure {α} (a : α) (s : NetState) : nexec (pure a : NetM α) s = (.ok a, s) := rfl
+@[simp] theorem nexec_pure7 {α} (a : α) (s : NetState) : nexec (pure a : NetM α) s = (.ok a, s) := rfl
 
-theorem nexec_bind {α β} (x : NetM α) (f : α → NetM β) (s : NetState) :
+theorem nexec_bind7 {α β} (x : NetM α) (f : α → NetM β) (s : NetState) :
     nexec (x >>= f) s =
       match nexec x s with
       | (.ok a, s') => nexec (f a) s'
@@ -122,7 +123,7 @@ variable {α β : Type} (E : PyErr → NetState → Prop)
 @[simp] theorem wp_bind (x : NetM α) (f : α → NetM β) (Q : β → NetState → Prop) (s : NetState) :
     wp E (x >>= f) Q s = wp E x (fun a s' => wp E (f a) Q s') s := by
   unfold wp
-  rw [nexec_bind]
+  rw [nexec_bind7]
   rcases h : nexec x s with ⟨r, s'⟩
   cases r <;> rfl
 
@@ -147,15 +148,8 @@ variable {α β : Type} (E : PyErr → NetState → Prop)
     wp E (if h : c then a h else b h) Q s = if h : c then wp E (a h) Q s else wp E (b h) Q s := by
   split <;> rfl
 
-/-- the node the computation runs as -/
-def NetState.node (s : NetState) : Node := s.nodes.getD s.cur default
-
-/-- replace the current node -/
-def NetState.setNode (s : NetState) (f : Node → Node) : NetState :=
-  { s with nodes := s.nodes.modify s.cur f }
-
-theorem nexec_getNode (s : NetState) : nexec getNode s = (.ok s.node, s) := rfl
-theorem nexec_modNode (f : Node → Node) (s : NetState) : nexec (modNode f) s = (.ok (), s.setNode f) := rfl
+theorem nexec_getNode7 (s : NetState) : nexec getNode s = (.ok s.node, s) := rfl
+theorem nexec_modNode7 (f : Node → Node) (s : NetState) : nexec (modNode f) s = (.ok (), s.setNode f) := rfl
 
 @[simp] theorem wp_getNode (Q : Node → NetState → Prop) (s : NetState) :
     wp E getNode Q s = Q s.node s := rfl
@@ -188,20 +182,17 @@ theorem wp_liftPy (x : PyM α) (Q : α → NetState → Prop) (s : NetState) :
 @[simp] theorem wp_liftPy_error (e : PyErr) (Q : α → NetState → Prop) (s : NetState) :
     wp E (liftPy (.error e : PyM α)) Q s = E e s := rfl
 
-/-- the driver state `liftRf` runs an `RF24` method on -/
-def NetState.drv (s : NetState) : DrvState := { d := s.node.rf, w := s.w }
-
 /-- the session state after an `RF24` method ended in driver state `ds` -/
 def NetState.putDrv (s : NetState) (ds : DrvState) : NetState :=
   { s with nodes := s.nodes.modify s.cur (fun n => { n with rf := ds.d }), w := ds.w }
 
-theorem nexec_liftRf (m : DrvM α) (s : NetState) :
+theorem nexec_liftRf7 (m : DrvM α) (s : NetState) :
     nexec (liftRf m) s = ((exec m s.drv).1, s.putDrv (exec m s.drv).2) := rfl
 
 @[simp] theorem wp_liftRf (m : DrvM α) (Q : α → NetState → Prop) (s : NetState) :
     wp E (liftRf m) Q s = dwp (fun e ds => E e (s.putDrv ds)) m (fun a ds => Q a (s.putDrv ds)) s.drv := by
   unfold wp dwp
-  rw [nexec_liftRf]
+  rw [nexec_liftRf7]
   rcases h : exec m s.drv with ⟨r, s'⟩
   cases r <;> rfl
 
